@@ -7,6 +7,8 @@ def run(chk):
     snprintfrule.run(chk, units=["asmjit/core/string.cpp", "asmjit/support/arena.cpp"], floor=4)
     from lib import resizefill
     resizefill.run(chk)
+    from lib import danglink
+    danglink.run(chk)
     return chk.finish(
         level="other",
         explanation=("Decides one structural clause of C18 on /repo's current source: in String::_op_vformat() and Arena::sformat() the value "
